@@ -1,4 +1,4 @@
-//@serves C02 C06 C09 C10 C11 C12 C01
+//@serves C02 C06 C09 C10 C11 C12 C01 C04
 //@tier A
 //@include prelude/head.rs
 verus! {
